@@ -1,4 +1,5 @@
 import I2N.Lemmas.Trav
+import I2N.Lemmas.TravProgress
 import I2N.Model.TravMon
 /-!
 # C02 — Traversal terminates and every selected test gets a definite result  (partial by design)
@@ -168,5 +169,135 @@ theorem dry_run_inert (g : Graph) (s : State) (n w : Nat) (hdry : (g.node n).dry
   · unfold cleanDecision; simp [hdry]
   · unfold shouldRerun
     by_cases a : (s.nd n).rerunDisabled = true <;> simp [a, hdry]
+
+/-! ## progress lemmas on reachable states
+
+`ReachableF`, `EdgeSym`, `PInv`: Lemmas/TravProgress.lean.  `ReachableF` = initial state + `resume` steps of real
+workers with positive fuel; `EdgeSym g` = every edge is recorded at both ends (decidable form `edgeSymB`). -/
+
+/-- `path_connected`.  In every reachable state the path of a real worker is empty — and then the worker is done —
+or starts at the root with every two consecutive entries joined by an edge of the graph as parsed so far
+(`prev ∈ setup(next) ∨ prev ∈ cleanup(next)` in `vis g s`). -/
+theorem path_connected (g : Graph) (hsym : EdgeSym g) (ncls : Nat) (store : List (String × List (String × String)))
+    (s : State) (h : ReachableF g ncls store s) (w : Nat) (hw : w < s.workers.length) :
+    ((s.wd w).path = [] ∧ (s.wd w).pc = .done) ∨
+    ((s.wd w).path.head? = some g.root ∧
+      ∀ i prev next, (s.wd w).path[i]? = some prev → (s.wd w).path[i + 1]? = some next → Adj (vis g s) prev next) := by
+  rcases (h.pinv hsym).path w hw with h' | h'
+  · exact Or.inl h'
+  · exact Or.inr ⟨h'.head, h'.consecutive⟩
+
+/-- `no_broken_path`.  The guard of the `AssertionError "Discontinuous path"` branch of `iter` is never met: in a
+reachable state, for a path longer than one entry, the entry before the last is a child or a parent of the last one
+in the visible graph — also after the lazy-expansion step `prepare` that `iterL` runs first (it only adds edges). -/
+theorem no_broken_path (g : Graph) (hsym : EdgeSym g) (ncls : Nat) (store : List (String × List (String × String)))
+    (s : State) (h : ReachableF g ncls store s) (w : Nat) (hw : w < s.workers.length) (next : Nat)
+    (hlast : (s.wd w).path.getLast? = some next) (hlen : (s.wd w).path.length ≠ 1)
+    (s1 : State) (hs1 : s1 = s ∨ s1 = prepare g s w) :
+    (((vis g s1).node next).cleanup.map (·.1)).contains ((s.wd w).path.getD ((s.wd w).path.length - 2) 0) = true ∨
+    (((vis g s1).node next).setup.map (·.1)).contains ((s.wd w).path.getD ((s.wd w).path.length - 2) 0) = true := by
+  rcases (h.pinv hsym).path w hw with h' | h'
+  · rw [h'.1] at hlast; simp at hlast
+  · have hadj := (h'.last_two hlen next hlast).1
+    have hadj1 : Adj (vis g s1) ((s.wd w).path.getD ((s.wd w).path.length - 2) 0) next := by
+      rcases hs1 with e | e
+      · rw [e]; exact hadj
+      · rw [e]; exact adj_vis_mono g s _ (prepare_frame g s w).2.2.2 _ _ hadj
+    rcases hadj1 with h1 | h1
+    · right; simpa using h1
+    · left; simpa using h1
+
+/-- `no_raise_from_pick`.  The one pick of `iter` that is not guarded by the readiness test of the very node it picks
+from — `pick_child` at a path of length one — is a pick from the root, which is not cleanup-ready there (the loop
+would have ended); so it finds a child.  The other picks of the loop are guarded syntactically
+(`if !isSetupReady … then pickParent`, `if isCleanupReady … else pickChild` on the same state), where
+`no_pick_from_exhausted_parent` / `_child` apply directly: no pick of an iteration raises `RuntimeError`. -/
+theorem no_raise_from_pick (g : Graph) (hsym : EdgeSym g) (ncls : Nat) (store : List (String × List (String × String)))
+    (s : State) (h : ReachableF g ncls store s) (w : Nat) (hw : w < s.workers.length) (next : Nat)
+    (hlast : (s.wd w).path.getLast? = some next) (hlen : (s.wd w).path.length = 1)
+    (hnr : isCleanupReady (vis g s) s (vis g s).root w = false) :
+    ∃ c s', pickChild (vis g s) s next w = some (c, s') ∧ relevant g w c = true := by
+  rcases (h.pinv hsym).path w hw with h' | h'
+  · rw [h'.1] at hlast; simp at hlast
+  · have hp := h'.length_one hlen
+    rw [hp] at hlast
+    have hn : next = (vis g s).root := by
+      rw [vis_root]; simpa using hlast.symm
+    rw [hn]
+    obtain ⟨c, s', h1, h2, _⟩ := no_pick_from_exhausted_child (vis g s) s (vis g s).root w hnr
+    exact ⟨c, s', h1, by rw [← vis_relevant g s]; exact h2⟩
+
+/-- `started_only_inside`.  In a reachable state a `started` mark of worker `v` on copy `m` means that `v` is
+suspended inside the execution of `m` (pc `.test m …`: the test or its result wait) — or that `v` died with an
+exception after entering `m` (pc `.failed`; the model keeps the mark then, like the code). -/
+theorem started_only_inside (g : Graph) (hsym : EdgeSym g) (ncls : Nat) (store : List (String × List (String × String)))
+    (s : State) (h : ReachableF g ncls store s) (m v : Nat) (hs : (s.nd m).started = some v) :
+    (s.wd v).pc.node? = some m ∨ (s.wd v).pc = .failed :=
+  (h.pinv hsym).markPc m v hs
+
+/-- `bounce_needs_runner` (no deadlock between waiting workers).  In a reachable state between steps, if a worker `w`
+that is neither executing nor dead finds node `n` occupied (so `iter` bounces it: `isOccupied` on the graph as parsed
+so far, `gv = vis g s'` for any `s'`, in particular `g` itself), then some OTHER worker `v ≠ w` holds the mark of a
+copy `m` of `n`'s class and is suspended inside the execution of `m` — or died inside it.  Hence the workers cannot
+all be waiting for each other.
+(The `failed` alternative is real in the model: a worker whose run decision raises keeps its mark.) -/
+theorem bounce_needs_runner (g : Graph) (hsym : EdgeSym g) (ncls : Nat) (store : List (String × List (String × String)))
+    (s : State) (h : ReachableF g ncls store s) (s' : State) (n w : Nat)
+    (hocc : isOccupied (vis g s') s n w = true)
+    (hpc : (s.wd w).pc.node? = none) (hnf : (s.wd w).pc ≠ .failed) :
+    ∃ v m, v ≠ w ∧ m ∈ g.copies n ∧ (s.nd m).started = some v ∧
+      ((s.wd v).pc.node? = some m ∨ (s.wd v).pc = .failed) := by
+  obtain ⟨v, m, hm, hst⟩ := occupied_has_holder g (vis g s') (sameStatic_vis g s') s n w hocc
+  have hv := (h.pinv hsym).markPc m v hst
+  refine ⟨v, m, ?_, hm, hst, hv⟩
+  intro hvw
+  subst hvw
+  rcases hv with h1 | h1
+  · rw [hpc] at h1; cases h1
+  · exact hnf h1
+
+/-- the same combined with the exclusion invariant of C04 (`Inv`, `Lemmas/TravExcl.lean`): the reachable state also
+satisfies the count bound, so the runners the bouncing worker waits for are at most `classLimit` many per scope -/
+theorem bounce_state_excl (g : Graph) (hH : Homog g) (ncls : Nat) (store : List (String × List (String × String)))
+    (s : State) (h : ReachableF g ncls store s) : Inv g s := by
+  induction h with
+  | init hidden => exact inv_initState g ncls store hidden
+  | step s w out fuel _ _ _ ih => exact inv_resume g s w out fuel hH ih
+
+/-- a two-node graph with one worker for the non-vacuity examples -/
+def gTwo : Graph :=
+  { workers := [{ id := "net1", swarm := "localhost" }],
+    nodes := [{ cls := 0, owner := some 0, name := "root.net1", pfx := "0", sharedRoot := true, cleanup := [(1, ["vm1"])] },
+              { cls := 1, owner := some 0, name := "leaf.net1", pfx := "1", setup := [(0, ["vm1"])] }],
+    root := 0 }
+
+example : EdgeSym gTwo := edgeSymB_sound (by decide)
+/-- after its first step the worker is suspended inside the execution of the leaf, holding its mark, with the
+connected path `[root, leaf]` -/
+example : ((resume gTwo (initState gTwo 2 []) 0 ⟨none, 0⟩ 9).1.wd 0).pc.node? = some 1 ∧
+    ((resume gTwo (initState gTwo 2 []) 0 ⟨none, 0⟩ 9).1.nd 1).started = some 0 ∧
+    ((resume gTwo (initState gTwo 2 []) 0 ⟨none, 0⟩ 9).1.wd 0).path = [0, 1] := by decide
+example := path_connected gTwo (edgeSymB_sound (by decide)) 2 [] _
+  (.step _ 0 ⟨none, 0⟩ 9 (.init []) (by decide) (by decide)) 0 (by decide)
+example := started_only_inside gTwo (edgeSymB_sound (by decide)) 2 [] _
+  (.step _ 0 ⟨none, 0⟩ 9 (.init []) (by decide) (by decide)) 1 0 (by decide)
+
+/-- Witness that the `failed` alternative of `started_only_inside` / `bounce_needs_runner` cannot be dropped: two
+workers, one class with `max_tries = -1`.  Worker 0 runs its copy (PASS) and dies in the following run decision
+(`ValueError`, mark already returned); worker 1 then enters its own copy, the run decision raises after the mark was
+set — the worker is dead and still holds the mark (the code behaves the same: the exception leaves `traverse_node`
+before `started_worker` is reset). -/
+def gNeg : Graph :=
+  { workers := [{ id := "net1", swarm := "localhost" }, { id := "net2", swarm := "localhost" }],
+    nodes := [{ cls := 0, owner := none, name := "root", pfx := "0", sharedRoot := true,
+                cleanup := [(1, ["vm1"]), (2, ["vm1"])] },
+              { cls := 1, owner := some 0, name := "leaf.net1", pfx := "1", setup := [(0, ["vm1"])], maxTries := some (-1) },
+              { cls := 1, owner := some 1, name := "leaf.net2", pfx := "2", setup := [(0, ["vm1"])], maxTries := some (-1) }],
+    root := 0 }
+
+def sNeg : State :=
+  runSchedule gNeg 9 (initState gNeg 2 []) [(0, ⟨none, 0⟩), (0, ⟨some "PASS", 1⟩), (1, ⟨none, 0⟩)]
+
+theorem dead_worker_keeps_mark : (sNeg.nd 2).started = some 1 ∧ (sNeg.wd 1).pc.isFailed = true := by decide
 
 end I2N.Props.C02
